@@ -54,7 +54,13 @@ def load_spec(pid):
 
 
 def all_props():
-    return sorted(os.path.basename(p)[:-5] for p in glob.glob(os.path.join(VERIF, "props", "C*.json")))
+    """Properties the lead has integrated (props/claimed.txt); --setup and --all use this list."""
+    have = sorted(os.path.basename(p)[:-5] for p in glob.glob(os.path.join(VERIF, "props", "C*.json")))
+    try:
+        ready = [l.strip() for l in open(os.path.join(VERIF, "props", "claimed.txt")) if l.strip() and not l.startswith("#")]
+        return [p for p in have if p in ready]
+    except FileNotFoundError:
+        return have
 
 
 # ---------------------------------------------------------------- Go side
